@@ -168,13 +168,13 @@ Section Deliver.
     intros Hr Hs Hts Happ. unfold l_uplink. rewrite Hr. unfold process_message. rewrite stale_load, Hs.
     destruct (pm_counter st (load st r) f n) as [[st1 dev1]|] eqn:Ec.
     2:{ unfold pm_counter in Ec. cbn [load d_fup] in Ec. destruct (d_fup r <=? fcnt f) eqn:Ecmp; [|discriminate].
-        unfold l_advance_fup in Ec. rewrite Hr, Ecmp in Ec. discriminate. }
-    destruct (pm_counter_spec st (load st r) f n st1 dev1 r Hr eq_refl eq_refl eq_refl Ec)
+        unfold l_advance_fup in Ec. rewrite Hr, Ecmp in Ec. cbn [load d_nwkskey] in Ec. rewrite keq_refl in Ec. discriminate. }
+    destruct (pm_counter_spec st (load st r) f n st1 dev1 r Hr eq_refl eq_refl eq_refl eq_refl Ec)
       as (r1 & R1 & S1 & Fd1 & Eu1 & Kn1 & Ka1 & Ad1 & I1 & O1 & B1 & N1 & Hc).
     cbn [load d_eui d_nwkskey d_appskey d_addr d_appeui] in *.
     assert (Hae : d_appeui dev1 = d_appeui r).
     { unfold pm_counter in Ec. cbn [load d_fup d_fdn d_keywarn] in Ec. destruct (d_fup r <=? fcnt f).
-      - destruct (l_advance_fup _ _ _ _) as [x [[]|]]; cbn [load d_relaxed] in Ec; try discriminate.
+      - destruct (l_advance_fup _ _ _ _ _) as [x [[]|]]; cbn [load d_relaxed] in Ec; try discriminate.
         + destruct (d_relaxed r); [|discriminate]. injection Ec as _ <-. reflexivity.
         + injection Ec as _ <-. reflexivity.
       - injection Ec as _ <-. reflexivity. }
